@@ -180,7 +180,14 @@ def run_case(c, d):
                   scale=float(np.max(np.abs(res[0]))))
     # class form: same values, folded for real data
     try:
-        p = spectrum.pminvar(arg, m, NFFT=NFFT, sampling=fs)
+        if d.get('i', 0) % 2 and m >= 3:
+            # the object first estimated another dimension (read), then got this one assigned
+            p = spectrum.pminvar(arg, m - 1, NFFT=NFFT, sampling=fs)
+            _ = p.psd
+            p.ar_order = m
+            feats = dict(feats, dimension_reassigned=True)
+        else:
+            p = spectrum.pminvar(arg, m, NFFT=NFFT, sampling=fs)
         psd = np.asarray(p.psd)
         par, pref = p.ar, p.reflection
     except Exception as exc:
